@@ -69,4 +69,19 @@ PROPS = {
         "quick": {"shards": 8, "timeout_s": 900, "floors": {"distinct_nontrivial": 100000, "tables": 142000, "probes": 10000000, "tables_with_a_repeated_gap": 1000, "constrained_attachments_checked": 1000, "calls_where_constraints_changed_the_outcome": 50, "unconstrained_vs_loose_calls_compared": 2000}},
         "thorough": {"shards": 16, "timeout_s": 3400, "floors": {"distinct_nontrivial": 140000, "calls_where_constraints_changed_the_outcome": 2000}},
     },
+    "C04": {
+        "ratio_ceilings": {"tie_divergences": ["projected_calls_compared", 0.001]},
+        "quick": {"shards": 8, "timeout_s": 900, "floors": {"distinct_nontrivial": 200, "projected_calls_compared": 3000, "histories_with_scenes_in_the_same_region": 40}},
+        "thorough": {"shards": 16, "timeout_s": 3400, "floors": {"distinct_nontrivial": 8000}},
+    },
+    "C05": {
+        "ratio_ceilings": {"tie_divergences": ["calls_compared", 0.001]},
+        "quick": {"shards": 8, "timeout_s": 1200, "floors": {"distinct_nontrivial": 500, "calls_compared": 20000, "chunk_arrival_order_signatures": 100}},
+        "thorough": {"shards": 16, "timeout_s": 3400, "floors": {"distinct_nontrivial": 20000}, "engines": ["miri:c05"]},
+    },
+    "C06": {
+        "ratio_ceilings": {"tie_divergences": ["scene_calls_compared_with_simple_tracker", 0.001], "grouping_divergences_in_consumer_mode_unexplained": ["scene_calls_compared_with_simple_tracker", 0.001]},
+        "quick": {"shards": 8, "timeout_s": 1200, "floors": {"distinct_nontrivial": 60, "batches_checked": 500, "scene_calls_compared_with_simple_tracker": 1500, "hook_order_signatures": 60, "discipline/consumer-thread": 20, "schedule/stall:vote.result.send": 5, "schedule/stall:vote.monitor.dec": 5, "schedule/stall:batch.scene.dispatched": 5}},
+        "thorough": {"shards": 16, "timeout_s": 3400, "floors": {"distinct_nontrivial": 3000}, "engines": ["miri:c06", "tsan:c06"]},
+    },
 }
